@@ -164,7 +164,7 @@ class Exec:
             return k(S.wrap(ty, f(o.t)), st)
         if isinstance(o, SPrim) and (o.ty, name) in S.OPAQUE_METHODS:
             return k(SClosure("method", name, recv=o), st)
-        if isinstance(o, SPrim) and o.ty in DATA_CLASSES:
+        if isinstance(o, SPrim) and o.ty in S.DATA_FIELDS:
             try:
                 return k(ops.data_field(o, name), st)
             except KeyError:
@@ -363,6 +363,20 @@ class Exec:
                     return k(res, st2)
                 except Unsupported:
                     pass
+            if isinstance(e.op, (ast.BitOr, ast.Sub, ast.BitAnd)) and not isinstance(a, SPrim):
+                try:
+                    sa, sb = self.to_setv(a, st2), self.to_setv(b, st2)
+                except Unsupported:
+                    sa = None
+                if sa is not None and S.sort_of(sa.elem) == S.sort_of(sb.elem):
+                    x = z3.Const("x!so", S.sort_of(sa.elem))
+                    body = {ast.BitOr: z3.Or(sa.mem[x], sb.mem[x]), ast.BitAnd: z3.And(sa.mem[x], sb.mem[x]),
+                            ast.Sub: z3.And(sa.mem[x], z3.Not(sb.mem[x]))}[type(e.op)]
+                    res = SSetV(sa.elem, z3.Lambda([x], body))
+                    if isinstance(a, SRef):      # set op on mutable sets yields a new mutable set
+                        r = new_ref()
+                        return k(SRef(("set", sa.elem), r), st2.put(r, SetCell(sa.elem, res.mem)))
+                    return k(res, st2)
             if isinstance(e.op, ast.Sub) and isinstance(a, (SSetV,)) and isinstance(b, SSetV):
                 x = z3.Const("x!sd", S.sort_of(a.elem))
                 return k(SSetV(a.elem, z3.Lambda([x], z3.And(a.mem[x], z3.Not(b.mem[x])))), st2)
@@ -451,7 +465,22 @@ class Exec:
                 env[t.id] = S.wrap(sq.elem, sq.arr[i])
             from vf.pyvc.spec import PureEval
             pe = PureEval(self, st3, env)
-            kv, vv = pe.ev(e.key), pe.ev(e.value)
+            kv = pe.ev(e.key)
+            if isinstance(e.value, ast.Call) and getattr(e.value.func, "id", "") in ("dict", "set") and not e.value.args:
+                # {x: dict() for x in ...} / {x: set() ...}: an adjacency map; the inner keys have the type of the outer keys
+                ks = S.sort_of(kv.ty)
+                kt = term_of(kv)
+                dom = S.fresh("dc.dom", z3.ArraySort(ks, z3.BoolSort()))
+                j = z3.Int("j!dc"); kk = z3.Const("k!dc", ks)
+                key_at = lambda t: z3.substitute(kt, (i, t))
+                st3 = st3.fact(z3.ForAll([j], z3.Implies(z3.And(j >= 0, j < n), dom[key_at(j)])))
+                src = z3.Function(f"dc.src!{S._ctr[0]}", ks, z3.IntSort())
+                st3 = st3.fact(z3.ForAll([kk], z3.Implies(dom[kk], z3.And(src(kk) >= 0, src(kk) < n, key_at(src(kk)) == kk))))
+                empty = z3.K(ks, z3.BoolVal(False))
+                r = new_ref()
+                ty = ("dict", kv.ty, ("set", kv.ty))
+                return k(SRef(ty, r), st3.put(r, DictCell(kv.ty, ("set", kv.ty), dom, z3.K(ks, empty))))
+            vv = pe.ev(e.value)
             for exc, c in pe.defs:
                 self.vc(f"{self.top_name}.dict_comprehension_defined", st3,
                         z3.ForAll([i], z3.Implies(z3.And(i >= 0, i < n), c)), f"{exc} inside a dict comprehension")
